@@ -160,15 +160,15 @@ Example C03_nonvacuous :
   map (fun x => signed_of (snd x))
       (trace BTC (mkstate [((1, 0), Done)] [])
          [Deliver [((1, 0), NoFault); ((1, 1), NoFault); ((1, 2), NoFault)];
-          ExecFail [(1, 1)]; ExecOk [(1, 2)]; Restart;
+          ExecFail (plain [(1, 1)]); ExecOk (plain [(1, 2)]); Restart;
           Deliver [((1, 0), NoFault); ((1, 1), NoFault); ((1, 2), NoFault)];
           Deliver [((1, 1), NoFault)]])
   = [[(1, 1); (1, 2)]; []; []; []; [(1, 1)]; []] /\
   (let ops := [Deliver [((1, 0), NoFault); ((1, 1), NoFault); ((1, 2), NoFault)];
-               Release [(1, 1); (1, 2)];
+               Release (plain [(1, 1); (1, 2)]);
                Deliver [((1, 2), NoFault); ((1, 1), NoFault)];
-               ExecOk [(1, 2); (1, 1)];
-               ExecFail [(1, 0); (1, 1); (1, 2)];
+               ExecOk (plain [(1, 2); (1, 1)]);
+               ExecFail (plain [(1, 0); (1, 1); (1, 2)]);
                Deliver [((1, 0), NoFault); ((1, 1), NoFault); ((1, 2), NoFault)]] in
    map (fun x => signed_of (snd x)) (trace BTC (mkstate [] []) ops)
    = [[(1, 0); (1, 1); (1, 2)]; []; [(1, 2); (1, 1)]; []; []; [(1, 0)]] /\
@@ -177,6 +177,59 @@ Example C03_nonvacuous :
       [Pending; Done; Done]; [Failed; Done; Done]; [Pending; Done; Done]]) /\
   evm_select [((1, 0), Executed); ((1, 1), NotExecuted)] = Ok [(1, 1)] /\
   old_sub_select [((1, 0), Executed); ((1, 1), NotExecuted)] = Ok [(1, 0); (1, 1)].
+Proof. vm_compute. repeat split. Qed.
+
+(* ---- store faults at the status reads / writes of a session end or of a retry release: every op that
+   goes through the status store carries, per transfer it names, the fault met there (ReadErr: the read made
+   for it fails; WriteErr: the write made for it fails).  C03_executed_is_final, C03_sound_at_every_step,
+   C03_never_resigned and the judge theorems above quantify over ALL such placements. ---- *)
+
+(* the end of a failing execution: a transfer is marked failed iff a read AND the write made for it go
+   through and its record does not say executed - a transfer whose guard read fails keeps its record *)
+Theorem C03_failed_end_with_faults : forall s inf b k,
+  subset (keys_of b) inf = true ->
+  lookup (st (fst (step BTC (mkstate s inf) (ExecFail b)))) k =
+  if kmem k (nofault_keys b) && negb (is_done (lookup s k)) then Failed else lookup s k.
+Proof. exact failed_end_with_faults. Qed.
+Print Assumptions C03_failed_end_with_faults.
+
+Theorem C03_faulted_transfer_untouched : forall s inf b k,
+  (forall f, In (k, f) b -> f <> NoFault) ->
+  lookup (st (fst (step BTC (mkstate s inf) (ExecFail b)))) k = lookup s k /\
+  lookup (st (fst (step BTC (mkstate s inf) (Release b)))) k = lookup s k.
+Proof. exact faulted_end_untouched. Qed.
+Print Assumptions C03_faulted_transfer_untouched.
+
+Theorem C03_ok_end_with_faults : forall s inf b k,
+  subset (keys_of b) inf = true ->
+  lookup (st (fst (step BTC (mkstate s inf) (ExecOk b)))) k =
+  if kmem k (written_keys b) then Done else lookup s k.
+Proof. exact ok_end_with_faults. Qed.
+Print Assumptions C03_ok_end_with_faults.
+
+Theorem C03_release_with_faults : forall s inf b k,
+  lookup (st (fst (step BTC (mkstate s inf) (Release b)))) k =
+  if kmem k (nofault_keys b) && is_pending (lookup s k) then Failed else lookup s k.
+Proof. exact release_with_faults. Qed.
+Print Assumptions C03_release_with_faults.
+
+Theorem C03_fault_free_ops : forall b,
+  keys_of (plain b) = b /\ nofault_keys (plain b) = b /\ written_keys (plain b) = b.
+Proof. exact (fun b => conj (keys_of_plain b) (conj (nofault_keys_plain b) (written_keys_plain b))). Qed.
+Print Assumptions C03_fault_free_ops.
+
+(* Non-vacuity: [P; Q] in flight, a retry releases P, the overlapping execution of P succeeds, the first
+   execution fails and cannot read P's record: P stays executed and only Q is signed again; the judge rejects
+   an implementation that marks P failed there (and then signs it again). *)
+Example C03_read_fault_nonvacuous :
+  let uni := [(1, 7); (1, 8)] in
+  map (fun x => signed_of (snd x)) (trace BTC (mkstate [] []) w_read_fault_ops)
+    = [[(1, 7); (1, 8)]; []; [(1, 7)]; []; []; [(1, 8)]] /\
+  map (fun o => o_snap o) (model_obs BTC uni (mkstate [] []) w_read_fault_ops)
+    = [[Pending; Pending]; [Failed; Pending]; [Pending; Pending]; [Done; Pending]; [Done; Failed]; [Done; Pending]] /\
+  hist_ok BTC uni (combine uni (snapshot uni [])) w_read_fault_ops
+    [mkobs 0 [[(1, 7); (1, 8)]] [Pending; Pending]; mkobs 0 [] [Failed; Pending]; mkobs 0 [[(1, 7)]] [Pending; Pending];
+     mkobs 0 [] [Done; Pending]; mkobs 0 [] [Failed; Failed]; mkobs 0 [[(1, 7); (1, 8)]] [Pending; Pending]] = false.
 Proof. vm_compute. repeat split. Qed.
 
 (* ---- concurrent Bitcoin histories: ONE shared prop store used at the same time by the BTC executor(s) and,
@@ -245,9 +298,9 @@ Print Assumptions C03_conc_judge_never_resigned.
    (1,9), the retry releases (2,1); the same per-thread histories under two different schedules. *)
 Definition cw_init : store := [((1, 9), Done); ((2, 1), Pending)].
 Definition cw_ths : list thread :=
-  [mkthread [(1, 1); (1, 2)] [Deliver [((1, 9), NoFault); ((1, 1), NoFault); ((1, 2), NoFault)]; ExecOk [(1, 1); (1, 2)];
+  [mkthread [(1, 1); (1, 2)] [Deliver [((1, 9), NoFault); ((1, 1), NoFault); ((1, 2), NoFault)]; ExecOk (plain [(1, 1); (1, 2)]);
                               Deliver [((1, 1), NoFault); ((1, 9), NoFault)]];
-   mkthread [(2, 1)] [Release [(2, 1); (1, 9)]; Release [(1, 9)]]].
+   mkthread [(2, 1)] [Release (plain [(2, 1); (1, 9)]); Release (plain [(1, 9)])]].
 Example C03_conc_nonvacuous :
   conc_wf cw_init [(1, 9)] cw_ths = true /\
   map (fun e => (fst e, o_sets (snd e))) (conc_run cw_init [(1, 9)] cw_ths [0; 1; 0; 1; 0]%nat)
